@@ -170,6 +170,7 @@ UNITS['c13'] = {
 UNITS['c13l'] = {
     'template': 'contracts/c13l.vrs',
     'mutants': [
+        ('lsp_diagnostics_drops_errors_of_already_seen_documents', 'diags.push_diag(loc, diag);', 'if false { diags.push_diag(loc, diag); }', ['C13.lsp.diagnostics']),
         ('cli_ignores_syntax_errors_when_a_tree_exists', 'if let Some(err) = errs.pop() {', 'if let (Some(err), true) = (errs.pop(), tree.is_none()) {', ['C13.cli.parse']),
         ('lsp_eval_swallows_the_error', 'self.log_compiler_error(&loc, &err); Err(anyhow_msg("evaluation failed"))', 'Err(anyhow_msg("evaluation failed"))', ['C13.lsp.eval']),
         ('lsp_logs_only_the_first_syntax_error', 'self.0.log_syntax_errors(&loc, &errs);', 'if errs.len() > 0 { self.0.log_syntax_errors(&loc, errs.split_at(1).0); }', ['C13.lsp.parse']),
